@@ -50,6 +50,9 @@ def cases(tier, seed):
     for g in (0.1, 1.0, 10.0):
         out.append(('ITML/S2*mixed_units/covariance/gamma=%s' % g, ('itml', 'S2*mixed_units', 'covariance', g, b['K'], seed)))
     # clearly more dissimilar than similar pairs (every second similar pair removed), and the converse
+    # the same data in units 8192 times smaller (coordinates ~1e4, squared distances ~1e8, multipliers ~1e-8), explicit bounds
+    for g in (1.0, 10.0):
+        out.append(('ITML/S3u*2^13/identity/gamma=%s' % g, ('itml', 'S3u*2^13', 'identity', g, b['K'], seed)))
     for dsn in ('S3u*few_similar', 'S5*few_dissimilar'):
         for pr in ('identity', 'covariance'):
             for g in (1.0, 10.0):
@@ -148,6 +151,8 @@ def run_case(spec):
         keep = np.setdiff1d(keep, idx[2::4])          # about a quarter of that kind remains
         ds = data.scaled(base, 1.0)
         ds.pairs, ds.ypairs, ds.pairs_idx = base.pairs[keep], base.ypairs[keep], base.pairs_idx[keep]
+    elif dsn.endswith('*2^13'):
+        ds = data.scaled(data.dataset(dsn.split('*')[0]), 2.0 ** 13)
     elif dsn.endswith('*mixed_units'):
         base = data.dataset(dsn.split('*')[0])
         Dv = np.ones(base.d)
@@ -173,6 +178,8 @@ def run_case(spec):
                  'ints_list': [max(1, int(round(lo))), max(2, int(round(hi)))], 'loose': np.array([sq.max() * 4, sq.min() / 4]),
                  # a zero upper bound is documented behaviour (replaced by 1e-9): integer and float forms must agree
                  'zero_float': np.array([0.0, hi]), 'zero_int': np.array([0, max(2, int(round(hi)))])}
+        if dsn.endswith('*2^13'):
+            bsets = {k_: v_ for k_, v_ in bsets.items() if k_ in ('floats', 'loose')}      # explicit bounds on the data's own scale
         for bname, bnd in bsets.items():
             if bname.startswith('zero') and gamma > 10:
                 # a (near) zero upper bound enforced almost rigidly drives M towards a singular matrix (condition number
